@@ -950,6 +950,19 @@ split; [exact A|]. split;
     - intros m [].
   Qed.
 
+  Theorem cache_transparent ops :
+    hist_ok [] ops ->
+    constructs_succeed ops (snd (run_ops ar fx t empty_styles ops)) ->
+    Forall2 (fun o r => match o with
+                        | OGet n p => forall v, comp n p = Ok v -> r = Ok (Some v)
+                        | OConstruct _ => True
+                        end) ops (snd (run_ops ar fx t empty_styles ops)).
+  Proof.
+    intros Hh Hs. pose proof (cache_transparent_hist ops Hh Hs) as H. unfold gets_agree in H.
+    clear Hh Hs. induction H as [|o r l l' Hor _ IH]; constructor; [|exact IH].
+    destruct o as [n p|n]; [|exact I]. intros v Hv. apply (Hor (Some v)). rewrite Hv. reflexivity.
+  Qed.
+
   (* newStyleFor's order (every style constructed in index order) followed by any
      sequence of Gets on nodes of the tree is a well-formed history *)
   Definition get_ops (l : list (N * N)) : list op := map (fun np => OGet (fst np) (snd np)) l.
